@@ -47,7 +47,10 @@ type FuncV struct{ Alts []FuncAlt }
 
 // Text abstracts string and []byte: display width, byte length, newline count,
 // cursor-up total (numbers appended with strconv.AppendInt), content identity.
-type Text struct{ W, N, NL, CUU, ID T }
+type Text struct {
+	W, N, NL, CUU, ID T
+	Lit                *string // concrete content when known (constants and their concatenations)
+}
 
 type StructV struct{ F []Value }
 type ArrayV struct{ E []Value }
@@ -196,7 +199,11 @@ func (m *Machine) Merge(g T, a, b Value) Value {
 		return SliceV{m.mergePtr(g, x.Base, y.Base), c.Ite(g, x.Len, y.Len), c.Ite(g, x.Cap, y.Cap)}
 	case Text:
 		y := b.(Text)
-		return Text{c.Ite(g, x.W, y.W), c.Ite(g, x.N, y.N), c.Ite(g, x.NL, y.NL), c.Ite(g, x.CUU, y.CUU), c.Ite(g, x.ID, y.ID)}
+		var lit *string
+		if x.Lit != nil && y.Lit != nil && *x.Lit == *y.Lit {
+			lit = x.Lit
+		}
+		return Text{c.Ite(g, x.W, y.W), c.Ite(g, x.N, y.N), c.Ite(g, x.NL, y.NL), c.Ite(g, x.CUU, y.CUU), c.Ite(g, x.ID, y.ID), lit}
 	case StructV:
 		y := b.(StructV)
 		out := make([]Value, len(x.F))
